@@ -520,6 +520,59 @@ def lazy_random_clause(model, rep, cg):
            f"{n} closure(s) handed to dask examined", clause="3 global state", stmt="S12 lazy summary")
 
 
+NON_ADDITIVE = {"mean", "average", "median", "std", "var", "nanmean", "nanmedian", "nanstd", "nanvar"}
+
+
+def per_block_clause(model, rep):
+    """CHUNK.  `x.map_blocks(f, ...)` applies f to every block on its own, so the result is independent of the chunking only when f treats the blocked axes
+    point-wise.  Two per-block operations make the result depend on where the block boundaries fall, whatever is done afterwards:
+      (a) a non-additive statistic per block (mean, median, std, ...) that is combined across blocks without the block sizes as weights - unequal blocks (dask's
+          "auto" chunks leave a short last block) are then over-weighted;
+      (b) an output block size computed by floor division of the input block size (`chunks=... c // b ...`): every block drops its own remainder,
+          sum(floor(c_i / b)) != floor(sum(c_i) / b), unless the array is first rechunked to multiples of b."""
+    n = 0
+    for fn in model.all_functions:
+        if not fn.module.relpath.startswith("acryo/"):
+            continue
+        for c in ast.walk(fn.node):
+            if not (isinstance(c, ast.Call) and isinstance(c.func, ast.Attribute) and c.func.attr in ("map_blocks", "map_overlap", "blockwise") and c.args):
+                continue
+            n += 1
+            rep.instance("CHUNK", fn.loc(c))
+            f0 = c.args[0] if not (dotted(c.func.value) in ("da", "dask.array")) else c.args[0]
+            body = None
+            if isinstance(f0, ast.Lambda):
+                body = f0.body
+            elif isinstance(f0, ast.Name):
+                for d in ast.walk(fn.node):
+                    if isinstance(d, (ast.FunctionDef, ast.Lambda)) and getattr(d, "name", None) == f0.id:
+                        body = d
+                for st in ast.walk(fn.node):
+                    if isinstance(st, ast.Assign) and any(isinstance(t, ast.Name) and t.id == f0.id for t in st.targets) and isinstance(st.value, ast.Lambda):
+                        body = st.value.body
+            stats = sorted({(dotted(x.func) or "").rsplit(".", 1)[-1] for x in ast.walk(body) if isinstance(x, ast.Call)} & NON_ADDITIVE) if body is not None else []
+            weighted = any(isinstance(x, ast.keyword) and x.arg == "weights" for x in ast.walk(fn.node))
+            ok_a = not stats or weighted
+            ck = kwarg(c, "chunks")
+            floor_chunks = ck is not None and any(isinstance(x, ast.BinOp) and isinstance(x.op, ast.FloorDiv) for x in ast.walk(ck))
+            if ck is not None and isinstance(ck, ast.Name):
+                for st in ast.walk(fn.node):
+                    if isinstance(st, ast.Assign) and any(isinstance(t, ast.Name) and t.id == ck.id for t in st.targets):
+                        floor_chunks = floor_chunks or any(isinstance(x, ast.BinOp) and isinstance(x.op, ast.FloorDiv) for x in ast.walk(st.value))
+            rechunked = isinstance(c.func.value, ast.Call) and isinstance(c.func.value.func, ast.Attribute) and c.func.value.func.attr == "rechunk"
+            ok_b = not floor_chunks or rechunked
+            det = ""
+            if not ok_a:
+                det = (f"`{norm_src(c)[:70]}` takes the {'/'.join(stats)} of every block; combining the per-block values without the block sizes as weights depends "
+                       f"on the chunking (a short last block is over-weighted)")
+            elif not ok_b:
+                det = (f"`{norm_src(c)[:70]}`: output blocks of size c // b - every block drops its own remainder, the result differs from the same operation on "
+                       f"the whole array unless all chunk sizes are multiples of b")
+            rep.ob("CHUNK", fn.anchor, "a function mapped over blocks treats the blocked axes point-wise (no per-block statistic, no per-block truncation)", ok_a and ok_b,
+                   det, node=c, fn=fn, clause="chunking")
+    rep.floor("CHUNK", 2, "(map_blocks / map_overlap sites)")
+
+
 def check(model, rep, tier):
     rep.decided += ["C10.1 cache-key classes have consistent __hash__/__eq__", "C10.2 no shared container is both inserted into and iterated (un-snapshotted) by task-reachable code",
                     "C10.3 the global default backend is not task-writable", "C10.4 memoised results are never mutated", "C10.5 declared lazy shapes agree with produced shapes",
@@ -531,6 +584,7 @@ def check(model, rep, tier):
     rep.stats.update(call_sites=cg.n_sites, resolved_to_repo=cg.n_resolved, external=cg.n_external)
     if cg.n_resolved < 900:
         rep.error(f"resolved call sites dropped to {cg.n_resolved} (floor 900): the source model no longer sees part of the program")
+    per_block_clause(model, rep)
     hash_eq_clause(model, rep, cg)
     shared_state_clause(model, rep, cg)
     cached_clause(model, rep, cg)
